@@ -433,3 +433,91 @@ def two_threads(case, ctx):
     require(np.isclose(y, exp_count * 10.0 + float(np.sum(np.asarray(xs[w])))),
             lambda: f'{tr}: thread {w} returned {y}')
   ctx.note(labels=[tr, f'calls{ncalls}'], nontrivial=True)
+
+
+# ----------------------------------------------------------------------------
+# repeated calls of one nnx.jit function while an attribute is re-bound to a
+# generic pytree container with other static content (struct dataclass static
+# field, another namedtuple class with the same fields)
+import collections as _collections
+from flax import struct as _struct
+
+
+@_struct.dataclass
+class _Scaled:
+  w: object
+  scale: float = _struct.field(pytree_node=False, default=1.0)
+
+
+_PairA = _collections.namedtuple('_PairA', ['w', 'v'])
+_PairB = _collections.namedtuple('_PairB', ['w', 'v'])
+
+
+class _Holder(nnx.Module):
+  def __init__(self):
+    self.cfg = _Scaled(w=nnx.Param(jnp.asarray(1.0)), scale=2.0)
+    self.pair = _PairA(w=nnx.Param(jnp.asarray(1.0)),
+                       v=nnx.Variable(jnp.asarray(0.5)))
+    self.calls = nnx.Variable(jnp.asarray(0))
+
+
+def _holder_step(m):
+  m.calls.value = m.calls.value + 1
+  m.cfg.w.value = m.cfg.w.value * m.cfg.scale
+  bonus = 10.0 if isinstance(m.pair, _PairB) else 1.0
+  m.pair.v.value = m.pair.v.value + bonus
+  return m.cfg.w.value + m.cfg.scale + m.pair.v.value * bonus
+
+
+@clause('jit_pytree_statics',
+        strategy=lambda: st.lists(st.one_of(
+            st.sampled_from([0.5, 2.0, 3.0]).map(lambda s: ['scale', s]),
+            st.sampled_from(['A', 'B']).map(lambda c: ['pair', c]),
+            st.just(['call'])), min_size=1, max_size=6),
+        quick=150, thorough=5000, quick_shards=8, thorough_shards=16,
+        shrink=False,
+        rule='one nnx.jit function called after each of 1-6 edits of its '
+        'argument: an attribute re-bound to a struct dataclass with another '
+        'static field value, or to another namedtuple class with the same '
+        'fields (same Variables inside), or no edit: every call returns what '
+        'the eager function returns on a twin object, Variables agree '
+        'afterwards and the re-bound containers stay the caller\'s; '
+        'non-trivial = a re-bind to a value used in an earlier call')
+def jit_pytree_statics(case, ctx):
+  fn = nnx.jit(_holder_step)
+  mj, me = _Holder(), _Holder()
+  seen, revisit = set(), False
+  with sut('first call'):
+    oj, oe = fn(mj), _holder_step(me)
+  require(float(oj) == float(oe), 'first call differs from eager')
+  seen.add((2.0, 'A'))
+  cur = [2.0, 'A']
+  for step, (kind, *arg) in enumerate(case):
+    for m in (mj, me):
+      if kind == 'scale':
+        m.cfg = _Scaled(w=m.cfg.w, scale=arg[0])
+      elif kind == 'pair':
+        cls = _PairA if arg[0] == 'A' else _PairB
+        m.pair = cls(w=m.pair.w, v=m.pair.v)
+    if kind == 'scale':
+      cur[0] = arg[0]
+    elif kind == 'pair':
+      cur[1] = arg[0]
+    revisit = revisit or (kind != 'call' and tuple(cur) in seen)
+    seen.add(tuple(cur))
+    with sut(f'call after step {step}'):
+      oj, oe = fn(mj), _holder_step(me)
+    require(np.isclose(float(oj), float(oe)), lambda: f'nnx.jit returned '
+            f'{float(oj)} after edits {case[:step + 1]}, eager {float(oe)} '
+            '(stale trace)')
+    for name, get in (('cfg.w', lambda m: m.cfg.w.value),
+                      ('pair.v', lambda m: m.pair.v.value),
+                      ('calls', lambda m: m.calls.value)):
+      require(np.isclose(float(get(mj)), float(get(me))), lambda: f'Variable '
+              f'{name} is {float(get(mj))} after nnx.jit, {float(get(me))} '
+              f'eagerly (edits {case[:step + 1]})')
+    require(mj.cfg.scale == cur[0] and type(mj.pair).__name__ == '_Pair' +
+            cur[1], lambda: 'the call replaced the caller\'s re-bound '
+            f'container: scale {mj.cfg.scale}, pair {type(mj.pair).__name__}, '
+            f'expected {cur}')
+  ctx.note(labels=sorted({k for k, *_ in case}), nontrivial=revisit)
